@@ -103,10 +103,14 @@ func (s *jwtSigner) load() error {
 
 	var kse *keystore.Entry
 
-	if len(s.keyID) == 0 {
-		kse, err = ks.Entries()[0], nil
-	} else {
+	switch {
+	case len(s.keyID) != 0:
 		kse, err = ks.GetKey(s.keyID)
+	case len(ks.Entries()) == 0:
+		// e.g. an empty, or only partially written file, or a file containing certificates only
+		err = errorchain.NewWithMessage(keystore.ErrNoSuchKey, "key store does not contain any keys")
+	default:
+		kse = ks.Entries()[0]
 	}
 
 	if err != nil {
